@@ -548,7 +548,13 @@ func ruleE5Loops(c *Ctx) []Ob {
 						}
 						if z && inc {
 							// bound must be loop-invariant (defined outside the loop)
-							inv := !b.Dominates(valueBlock(bo.Y, b)) || valueBlock(bo.Y, b) == nil
+							inv := valueBlock(bo.Y, b) == nil || !b.Dominates(valueBlock(bo.Y, b))
+							if call, ok := bo.Y.(*ssa.Call); ok && isBuiltin(call, "len") {
+								// len(x) re-evaluated in the header: invariant when x is defined outside the loop
+								if vb := valueBlock(call.Call.Args[0], b); vb == nil || !b.Dominates(vb) {
+									inv = true
+								}
+							}
 							if inv {
 								s.ok(key+":counted", pos, "counted loop 0 <= j < "+path(bo.Y)+" (bound sanitised by rule E5.length-sanitised)")
 							} else {
